@@ -20,7 +20,6 @@ import (
 	"fmt"
 	"os"
 	"regexp"
-	"strings"
 
 	"verifharness/cmd/c06/pk"
 	"verifharness/hx"
@@ -186,14 +185,18 @@ func (h *harness) eval(c Case) (*prepared, *failure) {
 // genCase is a case in generator form (kept for shrinking).
 type genCase struct {
 	mode   string
-	tree   *T    // printed tree (expected known) …
-	lex    []Lex // … or a raw lexeme sequence (mutations)
+	raw    []byte // a fixed text …
+	tree   *T     // … or a printed tree (expected known) …
+	lex    []Lex  // … or a raw lexeme sequence (mutations)
 	seed   uint64
 	class  int
 	stream string
 }
 
 func (g *genCase) build() Case {
+	if g.raw != nil || (g.tree == nil && g.lex == nil) {
+		return mkCase(g.mode, g.raw, "", g.stream)
+	}
 	lex := g.lex
 	if g.tree != nil {
 		e := &emitter{spell: hx.NewRand(g.seed ^ 0x5bd1e995)}
@@ -211,6 +214,15 @@ func (g *genCase) build() Case {
 
 func (g *genCase) shrinks() []*genCase {
 	var out []*genCase
+	if g.raw != nil {
+		rs := []rune(string(g.raw))
+		for i := range rs {
+			c := *g
+			c.raw = []byte(string(rs[:i]) + string(rs[i+1:]))
+			out = append(out, &c)
+		}
+		return out
+	}
 	if g.tree != nil {
 		for _, t := range shrinkCandidates(g.tree) {
 			c := *g
@@ -356,15 +368,10 @@ var junkPool = []string{"&", "%", "?", ".", "..", "\"abc", "\"\\q\"", "\\", "1e"
 
 func (h *harness) fixedCases(b *batcher) {
 	for _, s := range []string{"", " ", "\n", "\ufeff", "#c", "#c\n", ",,,", "{", "}", "{}", "{a", "{a}", "{a}}", "{a}{", "query", "query{}", "query Q", "fragment", "fragment on", "fragment on on T{a}", "fragment F on T{a}", "{...}", "{...on}", "{... on T}", "{...{a}}", "{a:}", "{a:b:c}", "{a()}", "{a(x:)}", "{a(x:1)}", "{a(x:$)}", "{a @}", "{a @d()}", "query($v:T=$w){a}", "query($v:[T!]!=[1,{a:$b}]){a}", "query(){a}", "query($v:T!!){a}", "query($v:[T){a}", "query($v:[]){a}", "{a(x:[)}", "{a(x:{y})}", "{a(x:{y:})}", "{a(x:[1 2,3])}", "{a}query", "{a} {b}", "\ufeff{a}", "{a}\ufeff", "{\n  a\r\n  b\r  c\n}", "{a(x:\"\"\"\n  multi\n  line\n\"\"\") b}", "subscription S @d(x:null) {a}", "mutation{a{b{c}}}"} {
-		g := &genCase{mode: "doc", stream: "fixed"}
-		c := mkCase("doc", []byte(s), "", "fixed")
-		p := h.prepare(c)
-		b.queue = append(b.queue, pending{&genCase{mode: "doc", lex: nil, stream: "fixed"}, p})
-		_ = g
+		b.add(&genCase{mode: "doc", raw: []byte(s), stream: "fixed"})
 	}
 	for _, s := range []string{"", "1", "-1.5e3", "\"s\"", "true", "null", "E", "$v", "$", "[", "[]", "[1", "{}", "{a}", "{a:1}", "{a:1", "[[[]]]", "1 2", "!", "]", "[$v {a:$w}]"} {
-		p := h.prepare(mkCase("value", []byte(s), "", "fixed"))
-		b.queue = append(b.queue, pending{&genCase{mode: "value", stream: "fixed"}, p})
+		b.add(&genCase{mode: "value", raw: []byte(s), stream: "fixed"})
 	}
 	b.flush()
 }
@@ -431,7 +438,8 @@ func main() {
 		var c Case
 		if hx.LoadReplayCase(f, &c) == nil && (c.SrcB64 != "" || c.Src != "") {
 			p, fl := h.eval(c)
-			g := &genCase{mode: c.Mode, stream: "corpus"}
+			g := &genCase{mode: c.Mode, raw: c.src(), stream: "corpus"}
+			p.c.Expected = c.Expected
 			h.record(g, p, fl)
 		}
 	}
@@ -534,6 +542,5 @@ func main() {
 		b.add(&genCase{mode: "value", lex: lex, seed: seed, class: r.Intn(layClasses), stream: "mutant-value"})
 	}
 	b.flush()
-	_ = strings.TrimSpace
 	run.Finish(h.model)
 }
